@@ -186,6 +186,103 @@ N("C19", "module-attribute-read-is-live", U + "solver.py", None, "from .constant
   "from .constant import get_eps\nfrom . import constant\n\ndef shape(m):")
 N("C19", "coarser-literal", G + "polygon.py", "get_circle_point_list", "angle_i = math.pi * 2 / n * i", "angle_i = math.pi * 2.0 / n * i")
 
+# =========================================================================== C05
+F("C05", "segment-in-polygon-start-twice", G + "polygon.py", "ConvexPolygon.__contains__",
+  "return other.start_point in self and other.end_point in self", "return other.start_point in self and other.start_point in self", rule="R5.2")
+F("C05", "segment-in-polyhedron-or", G + "polyhedron.py", "ConvexPolyhedron.__contains__",
+  "return other.start_point in self and other.end_point in self", "return other.start_point in self or other.end_point in self", rule="R5.2")
+F("C05", "segment-in-line-one-point", G + "segment.py", "Segment.in_",
+  "    if isinstance(other, Line):\n        return self.start_point in other and self.end_point in other",
+  "    if isinstance(other, Line):\n        return self.start_point in other", rule="R5.2")
+F("C05", "segment-in-halfline-end-only", G + "halfline.py", "HalfLine.__contains__",
+  "return other.start_point in self and other.end_point in self", "return other.end_point in self", rule="R5.2")
+F("C05", "halfline-in-plane-no-direction", G + "halfline.py", "HalfLine.in_",
+  "return self.point in other and self.vector.orthogonal(other.n)", "return self.point in other", rule="R5.2")
+F("C05", "halfline-in-plane-parallel-normal", G + "halfline.py", "HalfLine.in_",
+  "self.vector.orthogonal(other.n)", "self.vector.parallel(other.n)", rule="R5.2")
+F("C05", "halfline-in-halfline-no-origin", G + "halfline.py", "HalfLine.__contains__",
+  "return self.line == other.line and other.point in self and (self.vector * other.vector > -get_eps())",
+  "return self.line == other.line and self.vector * other.vector > -get_eps()", rule="R5.2")
+F("C05", "line-in-plane-direction-only", G + "plane.py", "Plane.__contains__",
+  "return Point(other.sv) in self and self.parallel(other)", "return self.parallel(other)", rule="R5.2")
+F("C05", "polygon-in-polyhedron-first-vertex", G + "polyhedron.py", "ConvexPolyhedron.__contains__",
+  "        for point in other.points:\n            if not point in self:\n                return False\n        return True",
+  "        for point in other.points:\n            if not point in self:\n                return False\n            return True\n        return True", rule="R5.2",
+  note="returns after the first vertex")
+F("C05", "polygon-in-polyhedron-any", G + "polyhedron.py", "ConvexPolyhedron.__contains__",
+  "        for point in other.points:\n            if not point in self:\n                return False\n        return True",
+  "        for point in other.points:\n            if point in self:\n                return True\n        return False", rule="R5.2")
+F("C05", "class-level-changed", G + "segment.py", None, "    class_level = 3\n", "    class_level = 1\n", rule="R5.1",
+  note="Segment in Line no longer forwards to Segment.in_")
+F("C05", "segment-in-plane-to-fallback", G + "segment.py", "Segment.in_", "    elif isinstance(other, Plane):", "    elif isinstance(other, Point):", rule="R5.1")
+F("C05", "polygon-in-plane-raises", G + "polygon.py", "ConvexPolygon.in_", "if isinstance(other, Plane):", "if isinstance(other, Line):", rule="R5.1")
+F("C05", "halfline-contains-drops-segment", G + "halfline.py", "HalfLine.__contains__", "    if isinstance(other, Segment):", "    if isinstance(other, Plane):", rule="R5.1")
+N("C05", "swap-conjuncts", G + "polygon.py", "ConvexPolygon.__contains__",
+  "return other.start_point in self and other.end_point in self", "return other.end_point in self and other.start_point in self")
+N("C05", "conjuncts-via-locals", G + "segment.py", "Segment.__contains__",
+  "        return other.start_point in self and other.end_point in self",
+  "        r_s = other.start_point in self\n        r_e = other.end_point in self\n        return r_s and r_e")
+N("C05", "all-over-endpoints", G + "polyhedron.py", "ConvexPolyhedron.__contains__",
+  "return other.start_point in self and other.end_point in self", "return all((p in self for p in (other.start_point, other.end_point)))")
+N("C05", "isinstance-order", G + "segment.py", "Segment.in_",
+  "    if isinstance(other, Line):\n        return self.start_point in other and self.end_point in other\n    elif isinstance(other, Plane):\n        return self.start_point in other and self.end_point in other",
+  "    if isinstance(other, Plane):\n        return self.start_point in other and self.end_point in other\n    elif isinstance(other, Line):\n        return self.start_point in other and self.end_point in other")
+N("C05", "fallback-raises-typeerror", G + "line.py", "Line.__contains__", "raise NotImplementedError('')", "raise TypeError('unsupported')")
+N("C05", "direction-swapped-receiver", G + "halfline.py", "HalfLine.in_", "self.vector.orthogonal(other.n)", "other.n.orthogonal(self.vector)")
+
+# =========================================================================== C10
+DIST = C + "distance.py"
+F("C10", "delete-swapped-branch", DIST, "distance",
+  "    elif isinstance(a, Line) and isinstance(b, Point):\n        return distance(b, a)\n", "", rule="R10.1")
+F("C10", "forward-unswapped", DIST, "distance",
+  "    elif isinstance(a, Plane) and isinstance(b, Line):\n        return distance(b, a)",
+  "    elif isinstance(a, Plane) and isinstance(b, Line):\n        return distance(a, b)", rule="R10.1", note="infinite recursion")
+F("C10", "drop-abs", DIST, "distance", "return abs((b.sv - a.sv) * normale)", "return (b.sv - a.sv) * normale", rule="R10.2")
+F("C10", "negative-literal", DIST, "distance", "        return 0.0", "        return -0.5", rule="R10.2")
+F("C10", "drop-parallel-guard", DIST, "distance",
+  "        if a.dv.parallel(b.dv):\n            return distance(Point(a.sv), b)\n", "", rule="R10.4")
+F("C10", "one-sided-angle-guard", DIST, "distance", "        if a.dv.parallel(b.dv):", "        if a.dv.angle(b.dv) < 1e-06:", rule="R10.4",
+  note="admits anti-parallel directions")
+F("C10", "guard-on-other-operands", DIST, "distance", "        if a.dv.parallel(b.dv):", "        if a.dv.parallel(a.sv):", rule="R10.4")
+F("C10", "method-form-swapped", G + "body.py", "GeoBody.distance", "return distance(self, other)", "return distance(other, other)", rule="R10.3")
+F("C10", "mixed-pair-computed-twice", DIST, "distance",
+  "    elif isinstance(a, Plane) and isinstance(b, Point):\n        return distance(b, a)",
+  "    elif isinstance(a, Plane) and isinstance(b, Point):\n        return abs((b.pv() - a.p.pv()) * a.n)", rule="R10.1")
+N("C10", "folded-angle-guard", DIST, "distance", "        if a.dv.parallel(b.dv):", "        if parallel(a, b):")
+CAT["C10"].pop()  # calc.parallel(a, b) on lines is recognised only in the method form; not part of the idiom table
+N("C10", "guard-receiver-swapped", DIST, "distance", "        if a.dv.parallel(b.dv):", "        if b.dv.parallel(a.dv):")
+N("C10", "abs-via-local", DIST, "distance", "        return abs((b.sv - a.sv) * normale)", "        d = abs((b.sv - a.sv) * normale)\n        return d")
+N("C10", "point-point-method", DIST, "distance", "        return Vector(a, b).length()", "        return a.distance(b)")
+N("C10", "else-message", DIST, "distance", "'Not implemented distance between {} and {}'", "'distance: unsupported {} / {}'")
+N("C10", "two-sided-raw-guard", DIST, "distance",
+  "        if a.dv.parallel(b.dv):\n            return distance(Point(a.sv), b)\n        normale = a.dv.cross(b.dv).normalized()",
+  "        theta = a.dv.angle(b.dv)\n        if theta < 1e-06 or theta > math.pi - 1e-06:\n            return distance(Point(a.sv), b)\n        normale = a.dv.cross(b.dv).normalized()")
+
+# =========================================================================== C11
+ANG = C + "angle.py"
+F("C11", "drop-acute-line-line", ANG, "angle", "        return acute(a.dv.angle(b.dv))", "        return a.dv.angle(b.dv)", rule="R11.2")
+F("C11", "drop-acute-plane-plane", ANG, "angle", "        return acute(a.n.angle(b.n))", "        return a.n.angle(b.n)", rule="R11.2")
+F("C11", "drop-complement", ANG, "angle", "        return 0.5 * math.pi - rad", "        return rad", rule="R11.3")
+F("C11", "complement-same-kind", ANG, "angle", "        return acute(a.n.angle(b.n))", "        return 0.5 * math.pi - acute(a.n.angle(b.n))", rule="R11.3")
+F("C11", "unswap-mixed-parallel", ANG, "parallel", "        return a.dv.orthogonal(b.n)", "        return a.dv.parallel(b.n)", rule="R11.3")
+F("C11", "unswap-mixed-orthogonal", ANG, "orthogonal", "        return a.dv.parallel(b.n)", "        return a.dv.orthogonal(b.n)", rule="R11.3")
+F("C11", "forward-unswapped-angle", ANG, "angle", "        return angle(b, a)", "        return angle(a, b)", rule="R11.1")
+F("C11", "delete-forward-parallel", ANG, "parallel",
+  "    elif isinstance(a, Plane) and isinstance(b, Line):\n        return parallel(b, a)\n", "", rule="R11.1")
+F("C11", "remove-clamp", U + "vector.py", "Vector.angle", "return math.acos(max(-1, min(1, cos_angle)))", "return math.acos(cos_angle)", rule="R11.4")
+F("C11", "half-clamp", U + "vector.py", "Vector.angle", "return math.acos(max(-1, min(1, cos_angle)))", "return math.acos(min(1, cos_angle))", rule="R11.4")
+F("C11", "acute-wrong-threshold", C + "acute.py", "acute", "if rad > 0.5 * math.pi:", "if rad > math.pi:", rule="R11.2")
+F("C11", "acute-wrong-complement", C + "acute.py", "acute", "rad = math.pi - rad", "rad = 0.5 * math.pi - rad", rule="R11.2")
+F("C11", "method-form-args", G + "body.py", "GeoBody.parallel", "return parallel(self, other)", "return parallel(self, self)", rule="R11.5")
+F("C11", "wrong-operand-vector", ANG, "parallel", "        return a.n.parallel(b.n)", "        return a.n.parallel(a.n)", rule="ANALYSIS-ERROR",
+  note="not the two operands' directions: unrecognised predicate, fails closed")
+N("C11", "swap-receiver", ANG, "parallel", "        return a.dv.orthogonal(b.n)", "        return b.n.orthogonal(a.dv)")
+N("C11", "pi-half-literal", ANG, "angle", "        return 0.5 * math.pi - rad", "        return math.pi / 2 - rad")
+N("C11", "inline-rad", ANG, "angle", "        rad = acute(a.dv.angle(b.n))\n        return 0.5 * math.pi - rad", "        return 0.5 * math.pi - acute(a.dv.angle(b.n))")
+N("C11", "orthogonal-method", ANG, "orthogonal", "        return null(a.dv * b.dv)", "        return a.dv.orthogonal(b.dv)")
+N("C11", "clamp-other-nesting", U + "vector.py", "Vector.angle", "max(-1, min(1, cos_angle))", "min(1, max(-1, cos_angle))")
+N("C11", "acute-ge", C + "acute.py", "acute", "if rad > 0.5 * math.pi:", "if rad >= math.pi / 2:")
+
 
 def catalogue(prop: str) -> List[Mutant]:
     return list(CAT.get(prop, []))
